@@ -86,10 +86,15 @@ def run(outcome, tier, seed):
             cases.append(cli.Case(["-t", to, "a.json"], None, "tty"))
             cases.append(cli.Case(["-t" + to], STDIN, "tty"))
             cases.append(cli.Case(["-t", to, "missing.json"], None, "tty"))
+        # a device that accepts nothing: every failure to write is "every other failure" (status 1, a message)
+        for argv in (["a.json"], ["-t", "yaml", "a.json", "b.yaml"], ["-t", "msgpack", "a.json"], ["-t", "toml", "a.json"], ["-tj", "big.json"],
+                     ["-t", "yaml", "m.json"], ["-t", "json", "c.toml", "d.msgpack"], ["--help"], ["-V"], ["-t", "json", "missing.json"]):
+            cases.append(cli.Case(argv, None, "devfull"))
+        cases.append(cli.Case(["-t", "json"], STDIN, "devfull"))
         results = cli.predict_and_run(common.XT_DEBUG, fx.dir, cases)
         hist, nontrivial = {}, 0
         for r in results:
-            diffs = cli.compare(r)
+            diffs = cli.compare(r, check_stdout=(r["case"].mode != "devfull"))
             st = r["actual"][0]
             hist[str(st)] = hist.get(str(st), 0) + 1
             p = r["parsed"]
@@ -109,6 +114,13 @@ def run(outcome, tier, seed):
                     bad.append("status 1 without an 'xt error' message")
                 if a_status == ("exit", 0) and a_err != b"":
                     bad.append("status 0 with text on stderr")
+                pred = r["predicted"]
+                if p["kind"] == "args" and r["case"].mode in ("pipe", "file") and pred.get("stdout") is not None and pred["status"] == ("exit", 0) \
+                        and a_status == ("exit", 0) and a_out != pred["stdout"]:
+                    bad.append("standard output carries something other than the translated data (the library's translation of the inputs, %d bytes; "
+                               "observed %d bytes beginning %r)" % (len(pred["stdout"]), len(a_out), a_out[:80]))
+                if r["case"].mode == "devfull" and p["kind"] == "args" and pred["status"] == ("exit", 1) and a_status == ("exit", 0):
+                    bad.append("status 0 although the output could not be written (stdout is /dev/full)")
                 if r["case"].mode == "tty" and p["kind"] == "args" and p.get("to") == "msgpack" and (a_out != b"" or a_status == ("exit", 0)):
                     bad.append("MessagePack written to a terminal (status %s, %d bytes on the terminal)" % (a_status[1], len(a_out)))
                 rec = {"what": "; ".join(bad) if bad else "model and binary disagree: " + "; ".join(diffs), "argv": r["case"].argv,
